@@ -60,6 +60,26 @@ def flatten(ret, types):
     raise MachineryError('unexpected return type %r' % type(ret))
 
 
+def scribble(ret):
+    """what a caller may do with a value handed to him: overwrite it in place (normalise it, subtract one, zero it).  The returned
+    object is the caller's; nothing the library returns LATER may depend on what became of it (action ScribbleReturned of
+    PostProc.tla: a stuttering step)"""
+    from pyPRISM.core.MatrixArray import MatrixArray
+    from pyPRISM.core.PairTable import PairTable
+    if isinstance(ret, MatrixArray):
+        try:
+            ret.data[...] = -7.0
+        except (ValueError, TypeError):      # a read-only buffer cannot be scribbled on: fine
+            pass
+    elif isinstance(ret, PairTable):
+        for i, (a, b), v in ret.iterpairs():
+            if isinstance(v, np.ndarray):
+                try:
+                    v[...] = -7.0
+                except (ValueError, TypeError):
+                    pass
+
+
 def both_spaces(dom, data, space):
     """reference representations of an array in both spaces, by the Domain of a pristine deep copy"""
     from pyPRISM.core.MatrixArray import MatrixArray
@@ -134,7 +154,9 @@ class PostAdapter(Adapter):
                     ret = call_variant(p, l['fn'], l['arg'])
                 except Exception as ex:
                     return {'raises': '%s: %s' % (type(ex).__name__, ex)}
-                return {'raises': '', 'ret': flatten(ret, self.s.types)}
+                out = {'raises': '', 'ret': flatten(ret, self.s.types)}
+                scribble(ret)
+                return out
             if act == 'UserTransform':
                 m = getattr(p, ARR[l['array']])
                 try:
